@@ -6,8 +6,9 @@
  "mode": "harness",
  "unwind": 17,
  "replace_calls": {"rawnext": "stub_rawnext", "expand": "stub_expand"},
+ "variants": {"flat": ["-DV_NESTED=0"], "nested": ["-DV_NESTED=1"]},
  "kind": "bounded",
- "bound": "the argument of one invocation of `#define h(x) #x`: up to 4 tokens, each an identifier `a`/`bc` (with or without preceding white space) or a new-line, then ')'",
+ "bound": "the argument of one invocation of `#define h(x) #x`: up to 4 tokens, each an identifier `a`/`bc` (with or without preceding white space) or a new-line, then ')'; variant nested: the argument `bc(a)` of `#define S(x) #x x`, where bc is a function-like macro whose invocation expand() consumes from the same token stream",
  "timeout": 300, "replay": false,
  "assumes": ["rawnext() is a token-script stand-in, expand() answers `not replaced`; stringize() is the REAL one; arrayaddbuf() is a fixed-capacity append (UTIL.arrayaddbuf); xreallocarray() hands out a static array"]
 }
@@ -28,7 +29,12 @@ extern int g_no_error;
 #define NS 4
 static struct token script[NS + 2]; static unsigned s_pos;
 struct token *stub_rawnext(void) { __CPROVER_assert(s_pos < NS + 2, "nothing is read after the closing parenthesis"); return &script[s_pos++]; }
+#if V_NESTED
+/* expand() of a function-like macro name reads its invocation `( a )` from the same stream (PP.expand -> expandfunc -> rawnext) */
+bool stub_expand(struct token *t) { if (t == &script[0]) { s_pos += 3; return true; } return false; }
+#else
 bool stub_expand(struct token *t) { return false; }
+#endif
 static char strbuf[16];
 void
 arrayaddbuf(struct array *a, const void *src, size_t n)
@@ -50,7 +56,7 @@ void scanopen(void) { }
 void scansetloc(struct location loc) { }
 void *arrayadd(struct array *a, size_t n) { __CPROVER_assert(0, "not reached"); return 0; }
 void *arraylast(struct array *a, size_t n) { return 0; }
-const char *tokstr[200] = {0};    /* punctuator spellings (token.c): none needed here, new-line has none */
+const char *tokstr[200] = {[TLPAREN] = "(", [TRPAREN] = ")"};    /* punctuator spellings (token.c): none needed here, new-line has none */
 
 void
 harness(void)
@@ -88,6 +94,17 @@ harness(void)
 		}
 	want[n++] = '"'; want[n++] = 0;
 
+#if V_NESTED
+	/* S(bc(a)) with #define S(x) #x x: the spelling is that of the argument AS WRITTEN, `bc(a)` */
+	script[0].kind = TIDENT; script[0].lit = n_bc; script[0].space = false;
+	script[1].kind = TLPAREN; script[1].lit = 0; script[1].space = false;
+	script[2].kind = TIDENT; script[2].lit = n_a; script[2].space = false;
+	script[3].kind = TRPAREN; script[3].lit = 0; script[3].space = false;
+	script[4].kind = TRPAREN; script[4].lit = 0;
+	in_n = 4;
+	params[0].flags = PARAMSTR | PARAMTOK;
+	n = 0; want[n++] = '"'; want[n++] = 'b'; want[n++] = 'c'; want[n++] = '('; want[n++] = 'a'; want[n++] = ')'; want[n++] = '"'; want[n++] = 0;
+#endif
 	g_no_error = 1;
 	expandfunc(&mac);
 
@@ -97,6 +114,6 @@ harness(void)
 		if (i < n)
 			__CPROVER_assert(strbuf[i] == want[i], "6.10.3.2p2: spellings in order, each run of white space (new-lines included) between tokens one space, none before the first or after the last token");
 #ifdef VERIF_CANARY
-	__CPROVER_assert(!(in_n == 4 && n == 9), "CANARY");
+	__CPROVER_assert(!(in_n == 4 && n == (V_NESTED ? 8 : 9)), "CANARY");
 #endif
 }
